@@ -258,3 +258,30 @@ func depConst(c *Ctx, fromRel, pkgPath, name string) (string, bool) {
 	}
 	return "", false
 }
+
+// freeVarBinding returns the value a closure's free variable is bound to in the enclosing function.
+func freeVarBinding(fv *ssa.FreeVar) ssa.Value {
+	fn := fv.Parent()
+	idx := -1
+	for i, v := range fn.FreeVars {
+		if v == fv {
+			idx = i
+		}
+	}
+	par := fn.Parent()
+	if par == nil || idx < 0 {
+		return nil
+	}
+	for _, b := range par.Blocks {
+		for _, ins := range b.Instrs {
+			if mc, ok := ins.(*ssa.MakeClosure); ok && mc.Fn == ssa.Value(fn) && idx < len(mc.Bindings) {
+				b := mc.Bindings[idx]
+				if inner, ok := b.(*ssa.FreeVar); ok {
+					return freeVarBinding(inner)
+				}
+				return b
+			}
+		}
+	}
+	return nil
+}
